@@ -5,3 +5,4 @@ pub mod lrumodel;
 pub mod vmap;
 pub mod pathmodel;
 pub mod sink;
+pub mod fvec;
